@@ -170,16 +170,9 @@ void CONmtInit(CO_NMT *nmt, CO_NODE *node)
 
 void CONmtBootup(CO_NMT *nmt)
 {
-    CO_IF_FRM frm;
-
     if (nmt->Mode == CO_INIT) {
+        /* the boot-up protocol is part of leaving the initialisation */
         CONmtSetMode(nmt, CO_PREOP);
-
-        CO_SET_ID  (&frm, 1792 + nmt->Node->NodeId);
-        CO_SET_DLC (&frm, 1);
-        CO_SET_BYTE(&frm, 0, 0);
-
-        (void)COIfCanSend(&nmt->Node->If, &frm);
     }
 }
 
@@ -223,8 +216,29 @@ int16_t CONmtCheck(CO_NMT *nmt, CO_IF_FRM *frm)
 
 void CONmtSetMode(CO_NMT *nmt, CO_MODE mode)
 {
+    CO_IF_FRM frm;
+
     ASSERT_PTR_FATAL(nmt);
 
+    if ((nmt->Mode == CO_INIT) &&
+        ((mode == CO_PREOP) || (mode == CO_OPERATIONAL) || (mode == CO_STOP))) {
+        /* the initialisation is left via PRE-OPERATIONAL, which is
+         * signalled with the boot-up protocol
+         */
+        nmt->Mode    = CO_PREOP;
+        nmt->Allowed = CONmtModeObj[CO_PREOP];
+
+        CO_SET_ID  (&frm, 1792 + nmt->Node->NodeId);
+        CO_SET_DLC (&frm, 1);
+        CO_SET_BYTE(&frm, 0, 0);
+        (void)COIfCanSend(&nmt->Node->If, &frm);
+
+        CONmtModeChange(nmt, CO_PREOP);
+        if ((mode == CO_PREOP) || (nmt->Mode != CO_PREOP)) {
+            /* done, or the application requested another mode */
+            return;
+        }
+    }
     if (nmt->Mode != mode) {
         if (mode == CO_OPERATIONAL) {
             
